@@ -210,6 +210,72 @@ def corpus():
     return json.load(open(p)) if os.path.exists(p) else []
 
 
+def cli_stage(chk, r, thorough):
+    """oracle:cli-shards -- the real `cargo nextest list --partition ...` over the scripted puppet workspace, every
+    shard of a few partitions, under the environments a fleet of machines may differ in (log level): disjoint,
+    covering, placed as documented, whatever the log level of each shard's machine"""
+    import e2e
+    try:
+        rig = e2e.Rig()
+    except RuntimeError as ex:
+        chk.violation("broken-obligation", "e2e-build", dict(error=str(ex)[-3000:]), no_input=True)
+        return
+    names_a = ["a", "b_i", "c", "d", "e_i", "f", "g"] + [f"x{r.randrange(1000):03d}" for _ in range(r.randint(0, 3))]
+    names_b = ["p", "q_i", "r"]
+    scen = {"bins": {"alpha::t1": {"tests": {n: {"ignored": n.endswith("_i"), "attempts": [{"exit": 0}]} for n in names_a}},
+                     "beta::t1": {"tests": {n: {"ignored": n.endswith("_i"), "attempts": [{"exit": 0}]} for n in names_b}}}}
+    ri = r.choice(["all", "default", "all"])
+
+    def listing(part, log):
+        args = ["--message-format", "json", "--run-ignored", ri] + (["--partition", part] if part else [])
+        res = rig.run(scen, "", args=args, subcommand="list", timeout=60,
+                      env_extra={"NEXTEST_LOG": log} if log else None)
+        rig.cleanup(res)
+        try:
+            suites = json.loads(res["stdout"])["rust-suites"]
+        except (ValueError, KeyError):
+            return None, res
+        out = {}
+        for b in ("alpha::t1", "beta::t1"):
+            tc = suites.get(b, {}).get("testcases", {})
+            out[b] = [(n, int(t["ignored"]), 0 if t["filter-match"]["status"] == "matches" else
+                       {"ignored": 1, "string": 2, "expression": 3, "partition": 4, "default-filter": 5}.get(
+                           t["filter-match"].get("reason"), 9)) for n, t in sorted(tc.items())]
+        return out, res
+
+    base, res0 = listing(None, None)
+    if base is None:
+        chk.violation("counterexample", "oracle:cli-shards", dict(clause="unpartitioned listing failed",
+                                                                    stderr=res0["stderr"][-1500:], rc=res0["rc"]))
+        return
+    plans = [("count", 2, ["debug", "debug"]), ("count", 3, [None, "debug", None]), ("hash", 2, ["debug", None])]
+    if thorough:
+        plans += [("count", 2, [None, "debug"]), ("count", 5, ["trace"] * 5), ("hash", 3, ["debug"] * 3)]
+    for kind, n, logs in plans:
+        shards = {}
+        for m in range(1, n + 1):
+            got, res = listing(f"{kind}:{m}/{n}", logs[m - 1])
+            chk.count("cli_shard_listings")
+            chk.count(f"cli_shard_log={logs[m - 1] or 'default'}")
+            if got is None:
+                chk.violation("counterexample", "oracle:cli-shards",
+                              dict(clause=f"listing of shard {kind}:{m}/{n} failed", rc=res["rc"], stderr=res["stderr"][-1500:]))
+                return
+            shards[m] = got
+        for b in ("alpha::t1", "beta::t1"):
+            sc = dict(kind=kind, n=n, names=[x[0] for x in base[b]], ri=ri)
+            results = {0: base[b]}
+            results.update({m: shards[m][b] for m in shards})
+            why = oracle_scenario(sc, results)
+            if why:
+                chk.violation("counterexample", "oracle:cli-shards",
+                              dict(input=dict(binary=b, tests=base[b], partition=f"{kind}:M/{n}", run_ignored=ri,
+                                              NEXTEST_LOG_per_shard=logs),
+                                   clause=why, impl={str(k): v for k, v in results.items()}))
+                return
+    chk.sample(dict(cli_shards=dict(run_ignored=ri, tests=len(names_a) + len(names_b), partitions=[p[:2] for p in plans])))
+
+
 def run(tier, seed):
     chk = vlib.Check(PROP, tier, seed)
     gate = vlib.coq_gate(PROP)
@@ -428,6 +494,8 @@ def run(tier, seed):
                           dict(input=x, impl=i, clause="accepted shards must satisfy 1 <= m <= n"))
             break
     chk.sample(dict(parse_case=pstrs[60], impl=impl[60]))
+
+    cli_stage(chk, r, thorough)
 
     chk.assumptions = [
         "other filters are abstracted as an arbitrary function pre(name, ignored) in the theorems",
